@@ -26,7 +26,7 @@ use std::time::Duration;
 
 use d_engine_core::role_state::RaftRoleState;
 use d_engine_core::{
-    ElectionCore, ElectionHandler, Error, HardState, InboundEvent, InternalEvent, LeaderInfo, MaybeCloneOneshot,
+    ElectionCore, ElectionHandler, Error, HardState, InboundEvent, InternalEvent, LeaderInfo, MaybeCloneOneshot, NewCommitData,
     MaybeCloneOneshotReceiver,
     Membership, MetaStore, MockCommitHandler, MockPurgeExecutor, MockRaftLog, MockReplicationCore, MockSnapshotPolicy,
     MockStateMachine, MockStateMachineHandler, MockTransport, NetworkError, PrepareResult, Raft, RaftCoreHandlers,
@@ -420,7 +420,7 @@ struct NodeEnv {
     dir: tempfile::TempDir,
     last: Arc<Mutex<(u64, u64)>>,
     raft: Option<Raft<ET>>,
-    rx: Option<mpsc::UnboundedReceiver<InternalEvent>>,
+    steps: Vec<String>,
     watch_rx: Option<watch::Receiver<Option<LeaderInfo>>>,
     last_seen: Option<LeaderInfo>,
     pubs: Vec<String>,
@@ -511,7 +511,6 @@ impl NodeEnv {
             )))
         };
         let (itx, irx) = mpsc::unbounded_channel();
-        let (_dummy_tx, dummy_rx) = mpsc::unbounded_channel();
         let (etx, erx) = mpsc::channel(64);
         let (ctx_, crx) = mpsc::channel(64);
         let (sd_tx, sd_rx) = watch::channel(());
@@ -527,16 +526,14 @@ impl NodeEnv {
                 purge_executor: Arc::new(pe),
             },
             membership.clone(),
-            SignalParams::new(itx, dummy_rx, etx, erx, ctx_, crx, sd_rx),
+            SignalParams::new(itx, irx, etx, erx, ctx_, crx, sd_rx),
             cfg,
         );
         let (wtx, wrx) = watch::channel(None);
         raft.register_leader_change_listener(wtx);
         self._keep.push(Box::new(sd_tx));
-        self._keep.push(Box::new(_dummy_tx));
         self._keep.push(Box::new(engine));
         self.raft = Some(raft);
-        self.rx = Some(irx);
         self.watch_rx = Some(wrx);
         self.last_seen = None;
         self.membership = Some(membership);
@@ -585,29 +582,64 @@ impl NodeEnv {
 
     /// process the internal events enqueued so far, in order (emulates `process_internal_events` +
     /// `process_inbound_events` for the replayed event)
+    /// The P2 arm of `Raft::run` and the `process_*` calls that follow it, through the REAL internal channel, the
+    /// real `drain_internal_events`, the real `handle_internal_event` (incl. its own draining of the channel) and the
+    /// real `process_inbound_events` (hooks verif_internal_fill / verif_internal_step / verif_process_inbound); the
+    /// leader-change watch is sampled after every internal event. Repeats until nothing is pending.
     async fn pump(&mut self) {
-        for _ in 0..64 {
-            let ev = match self.rx.as_mut().unwrap().try_recv() {
-                Ok(ev) => ev,
-                Err(_) => break,
-            };
-            match ev {
-                InternalEvent::ReprocessEvent(inb) => {
-                    self.deliver(*inb).await;
+        for _ in 0..16 {
+            let n = self.raft.as_mut().unwrap().verif_internal_fill().await.unwrap_or(0);
+            if n == 0 {
+                break;
+            }
+            for _ in 0..256 {
+                let r = self.raft.as_mut().unwrap().verif_internal_step().await;
+                if r.is_none() {
+                    break;
                 }
-                other => {
-                    let is_leader_ev = matches!(other, InternalEvent::BecomeLeader);
-                    let _ = self.raft.as_mut().unwrap().handle_internal_event(other).await;
-                    if is_leader_ev && self.role_i32() == NodeRole::Leader as i32 {
-                        self.noop_term = Some(self.state().1);
+                let before = self.pubs.len();
+                self.sample_watch();
+                let (role, term, _) = self.state();
+                let p = if self.pubs.len() > before { self.pubs[self.pubs.len() - 1].clone() } else { "-".to_string() };
+                self.steps.push(format!("{}{}={}", role, term, p));
+                if self.role_i32() == NodeRole::Leader as i32 {
+                    if self.noop_term.is_none() {
+                        self.noop_term = Some(term);
                     }
-                    if self.role_i32() != NodeRole::Leader as i32 {
-                        self.noop_term = None;
-                    }
+                } else {
+                    self.noop_term = None;
                 }
             }
-            self.sample_watch();
+            let _ = self.raft.as_mut().unwrap().verif_process_inbound(vec![]).await;
         }
+    }
+
+    /// like `pump`, but the first pass only processes what is already buffered (no receive/drain before it)
+    async fn pump_buffered_then_all(&mut self) {
+        for _ in 0..256 {
+            let r = self.raft.as_mut().unwrap().verif_internal_step().await;
+            if r.is_none() {
+                break;
+            }
+            let before = self.pubs.len();
+            self.sample_watch();
+            let (role, term, _) = self.state();
+            let p = if self.pubs.len() > before { self.pubs[self.pubs.len() - 1].clone() } else { "-".to_string() };
+            self.steps.push(format!("{}{}={}", role, term, p));
+            if self.role_i32() == NodeRole::Leader as i32 {
+                if self.noop_term.is_none() {
+                    self.noop_term = Some(term);
+                }
+            } else {
+                self.noop_term = None;
+            }
+        }
+        let _ = self.raft.as_mut().unwrap().verif_process_inbound(vec![]).await;
+        self.pump().await;
+    }
+
+    fn send_internal(&mut self, ev: InternalEvent) {
+        let _ = self.raft.as_ref().unwrap().internal_event_sender().send(ev);
     }
 
     async fn tick(&mut self) {
@@ -690,7 +722,7 @@ fn exec_cl(case: &str) -> String {
                 dir,
                 last: Arc::new(Mutex::new((p[4].parse().unwrap(), p[5].parse().unwrap()))),
                 raft: None,
-                rx: None,
+                steps: vec![],
                 watch_rx: None,
                 last_seen: None,
                 pubs: vec![],
@@ -817,35 +849,74 @@ fn exec_cl(case: &str) -> String {
                     }
                 }
                 "sd" => {
-                    let _ = nodes[i].raft.as_mut().unwrap().handle_internal_event(InternalEvent::BecomeFollower(None)).await;
-                    nodes[i].sample_watch();
+                    nodes[i].send_internal(InternalEvent::BecomeFollower(None));
                     nodes[i].pump().await;
-                    if nodes[i].role_i32() != NodeRole::Leader as i32 {
-                        nodes[i].noop_term = None;
-                    }
                     "ok".into()
                 }
                 "ht" => {
                     let t: u64 = p[2].parse().unwrap();
-                    let _ = nodes[i]
-                        .raft
-                        .as_mut()
-                        .unwrap()
-                        .handle_internal_event(InternalEvent::AppendResult { follower_id: 9999, result: Ok(AppendEntriesResponse::higher_term(9999, t)) })
-                        .await;
-                    nodes[i].sample_watch();
+                    nodes[i].send_internal(InternalEvent::AppendResult { follower_id: 9999, result: Ok(AppendEntriesResponse::higher_term(9999, t)) });
                     nodes[i].pump().await;
                     "ok".into()
                 }
                 "nc" => match (nodes[i].role_i32() == NodeRole::Leader as i32, nodes[i].noop_term) {
                     (true, Some(t)) => {
-                        let _ = nodes[i].raft.as_mut().unwrap().handle_internal_event(InternalEvent::NoopCommitted { term: t }).await;
-                        nodes[i].sample_watch();
+                        nodes[i].send_internal(InternalEvent::NoopCommitted { term: t });
                         nodes[i].pump().await;
                         "ok".into()
                     }
                     _ => "noop".into(),
                 },
+                // internal event queue: `iq,i,A[~B]`: the events A are in the channel when the loop wakes up (they are
+                // received + drained into the buffer), the events B reach the channel while the buffer is being
+                // processed (as the events enqueued by earlier handlers of the same pass do); result = role, term and
+                // published value after every handled internal event
+                "iq" => {
+                    let spec = p.get(2).copied().unwrap_or("-");
+                    let (a, b) = match spec.split_once('~') {
+                        Some((a, b)) => (a, b),
+                        None => (spec, "-"),
+                    };
+                    let role_now = nodes[i].role_i32();
+                    let (_, term_now, _) = nodes[i].state();
+                    let noop_now = if role_now == NodeRole::Leader as i32 { nodes[i].noop_term } else { None };
+                    let mk = |x: &str| -> Option<InternalEvent> {
+                        let q: Vec<&str> = x.split('.').collect();
+                        Some(match q[0] {
+                            "nci" => InternalEvent::NotifyNewCommitIndex(NewCommitData {
+                                new_commit_index: q[1].parse().ok()?,
+                                role: role_now,
+                                current_term: term_now,
+                            }),
+                            // `nc.@` = the NoopCommitted the leader itself emits: the term captured at BecomeLeader
+                            "nc" => InternalEvent::NoopCommitted { term: if q[1] == "@" { noop_now? } else { q[1].parse().ok()? } },
+                            "bf" => InternalEvent::BecomeFollower(if q[1] == "-" { None } else { Some(q[1].parse().ok()?) }),
+                            "bc" => InternalEvent::BecomeCandidate,
+                            "ld" => InternalEvent::LeaderDiscovered(q[1].parse().ok()?, q[2].parse().ok()?),
+                            "ht" => {
+                                let t: u64 = q[1].parse().ok()?;
+                                InternalEvent::AppendResult { follower_id: 9999, result: Ok(AppendEntriesResponse::higher_term(9999, t)) }
+                            }
+                            _ => return None,
+                        })
+                    };
+                    let evs = |s: &str| -> Vec<InternalEvent> {
+                        if s == "-" || s.is_empty() { vec![] } else { s.split('+').filter_map(|x| mk(x)).collect() }
+                    };
+                    nodes[i].steps.clear();
+                    for ev in evs(a) {
+                        nodes[i].send_internal(ev);
+                    }
+                    let _ = nodes[i].raft.as_mut().unwrap().verif_internal_fill().await;
+                    for ev in evs(b) {
+                        nodes[i].send_internal(ev);
+                    }
+                    // the buffered events are processed first (verif_internal_fill finds the buffer non-empty and the
+                    // channel is only drained into it by the handlers themselves or by the next fill)
+                    nodes[i].pump_buffered_then_all().await;
+                    let st = nodes[i].steps.join("_");
+                    format!("iq.{}", if st.is_empty() { "-".to_string() } else { st })
+                }
                 "lg" => {
                     *nodes[i].last.lock().unwrap() = (p[2].parse().unwrap(), p[3].parse().unwrap());
                     "ok".into()
@@ -861,14 +932,12 @@ fn exec_cl(case: &str) -> String {
                     let raft = nodes[i].raft.take().unwrap();
                     drop(raft); // graceful: Drop for Raft saves the hard state
                     nodes[i].watch_rx = None;
-                    nodes[i].rx = None;
                     "ok".into()
                 }
                 "crash" => {
                     let raft = nodes[i].raft.take().unwrap();
                     std::mem::forget(raft); // crash: no Drop, nothing saved
                     nodes[i].watch_rx = None;
-                    nodes[i].rx = None;
                     "ok".into()
                 }
                 "restart" => {
@@ -1035,6 +1104,47 @@ fn gen_single(r: &mut Rng) -> String {
             let rs: Vec<String> = (0..m).map(|_| if win { "g".to_string() } else { gen_resp(r, t + 1, lli, llt) }).collect();
             t += 1;
             format!("to,0,{}", if r.chance(1, 20) { "X".to_string() } else if rs.is_empty() { "-".to_string() } else { rs.join("+") })
+        } else if k < 73 {
+            // internal event queue: commit notifications mixed with noop-commit, step-down, higher-term replies
+            let plausible = r.chance(7, 10);
+            let mut stepped_down = false;
+            let mut gen_ev = |r: &mut Rng, t: &mut u64| -> String {
+                if plausible {
+                    // only what the node itself can enqueue, in an order it can enqueue it
+                    return match r.below(8) {
+                        0 | 1 | 2 => format!("nci.{}", r.below(5)),
+                        3 | 4 => if stepped_down { format!("nci.{}", r.below(5)) } else { "nc.@".to_string() },
+                        5 => {
+                            stepped_down = true;
+                            "bf.-".to_string()
+                        }
+                        6 => {
+                            let h = *t + r.below(3);
+                            *t = (*t).max(h);
+                            format!("ht.{}", h)
+                        }
+                        _ => "bc".to_string(),
+                    };
+                }
+                match r.below(10) {
+                    0 | 1 | 2 => format!("nci.{}", r.below(5)),
+                    3 | 4 => format!("nc.{}", around(r, *t)),
+                    5 => "bf.-".to_string(),
+                    6 => format!("bf.{}", r.range(2, 3)),
+                    7 => {
+                        let h = *t + r.below(3);
+                        *t = (*t).max(h);
+                        format!("ht.{}", h)
+                    }
+                    8 => format!("ld.{}.{}", r.range(2, 3), around(r, *t)),
+                    _ => "bc".to_string(),
+                }
+            };
+            let na = r.range(1, 3);
+            let nb = r.below(4);
+            let a: Vec<String> = (0..na).map(|_| gen_ev(r, &mut t)).collect();
+            let b: Vec<String> = (0..nb).map(|_| gen_ev(r, &mut t)).collect();
+            format!("iq,0,{}{}", a.join("+"), if b.is_empty() { String::new() } else { format!("~{}", b.join("+")) })
         } else if k < 76 {
             "sd,0".into()
         } else if k < 80 {
